@@ -547,7 +547,7 @@ class Interp:
             v = self._materialise(st, v)
             if isinstance(e, int):
                 if v[0] == 'tuple':
-                    v = v[1][e]
+                    v = v[1][e] if e < len(v[1]) else ('opq', ('part', e))
                 elif v[0] == 'adt':
                     v = v[3][e] if e < len(v[3]) else ('opq', ('nofield',))
                 elif v[0] == 'closure':
@@ -589,6 +589,8 @@ class Interp:
         if isinstance(e, int):
             if v[0] == 'tuple':
                 fs = list(v[1])
+                while len(fs) <= e:
+                    fs.append(('opq', ('part', len(fs))))
                 fs[e] = self._proj_store(fs[e], proj[1:], new)
                 return ('tuple', tuple(fs))
             if v[0] == 'adt':
@@ -603,8 +605,10 @@ class Interp:
                 return ('closure', v[1], tuple(fs), v[3])
             if v[0] in ('moved', 'opq', 'unk'):
                 # writing a field of an unstructured value: build a partial tuple
-                n = e + 1
-                fs = [MOVED if v[0] == 'moved' else ('opq', ('part', i)) for i in range(n)]
+                # (the arity is not known: a few fields more than asked for, each keeping the provenance)
+                n = max(e + 1, 4)
+                base = v[1] if v[0] == 'opq' and isinstance(v[1], tuple) else ((v[2] if v[0] == 'unk' else ('part',)))
+                fs = [MOVED if v[0] == 'moved' else ('opq', tuple(base) + (i,)) for i in range(n)]
                 fs[e] = self._proj_store(fs[e], proj[1:], new)
                 return ('tuple', tuple(fs))
             return v
@@ -724,6 +728,8 @@ class Interp:
                 slots.aux_drop(st, lambda q: q == ('len', mid))
             else:
                 slots.aux_shift(st, ('len', mid), c)
+        if getattr(self, 'track_pop', False) and z.entails_eq(old, new, 1):
+            self.ghost_bump(st, ('pop', mid))
         out = slots.set_len(st, mid, new)
         for s in out:
             m2 = s.maps[mid]
